@@ -2758,6 +2758,9 @@ impl Lexer<'_> {
         // The caller may have already consumed the first character of the text,
         // so the literal starts at the token start, not at the cursor
         let mut last_lit_end_byte_offset = self.cur_token_byte_offset;
+        // The first copied section may be empty, so indexes alone can't tell
+        // whether a quoted character has been seen
+        let mut has_quoted = false;
 
         while let Some(c) = self.cursor.peek() {
             match c {
@@ -2770,6 +2773,7 @@ impl Lexer<'_> {
                         lit_end_idx,
                         last_lit_end_byte_offset,
                         None, // will use the current byte offset
+                        has_quoted,
                     );
 
                     emit_token_update_nesting(self, local_parens_nesting, payload);
@@ -2784,6 +2788,7 @@ impl Lexer<'_> {
                         lit_end_idx,
                         last_lit_end_byte_offset,
                         None, // will use the current byte offset
+                        has_quoted,
                     );
 
                     emit_token_update_nesting(self, local_parens_nesting, payload);
@@ -2799,6 +2804,7 @@ impl Lexer<'_> {
                             lit_end_idx,
                             last_lit_end_byte_offset,
                             None, // will use the current byte offset
+                            has_quoted,
                         );
 
                         emit_token_update_nesting(self, local_parens_nesting, payload);
@@ -2819,6 +2825,7 @@ impl Lexer<'_> {
                             self.add_string_literal_from_src(last_lit_end_byte_offset, None);
                         lit_start_idx = min(lit_start_idx, new_start);
                         lit_end_idx = new_end;
+                        has_quoted = true;
 
                         // Now advance the cursor past the percent
                         self.cursor.advance();
@@ -2839,6 +2846,7 @@ impl Lexer<'_> {
                             lit_end_idx,
                             last_lit_end_byte_offset,
                             None, // will use the current byte offset
+                            has_quoted,
                         );
 
                         emit_token_update_nesting(self, local_parens_nesting, payload);
@@ -2870,6 +2878,7 @@ impl Lexer<'_> {
                         lit_end_idx,
                         last_lit_end_byte_offset,
                         None, // will use the current byte offset
+                        has_quoted,
                     );
 
                     self.emit_token(TokenChannel::DEFAULT, TokenType::MacroString, payload);
@@ -2891,6 +2900,7 @@ impl Lexer<'_> {
             lit_end_idx,
             last_lit_end_byte_offset,
             None, // will use the current byte offset
+            has_quoted,
         );
 
         emit_token_update_nesting(self, local_parens_nesting, payload);
@@ -3021,6 +3031,7 @@ impl Lexer<'_> {
                     lit_end_idx,
                     last_lit_end_byte_offset,
                     None, // will use the current byte offset
+                    false,
                 );
 
                 self.emit_token(TokenChannel::DEFAULT, TokenType::StringLiteral, payload);
@@ -3064,6 +3075,7 @@ impl Lexer<'_> {
                 lit_end_idx,
                 last_lit_end_byte_offset,
                 str_text_end_byte_offset,
+                false,
             )
         });
 
@@ -3097,8 +3109,9 @@ impl Lexer<'_> {
         cur_lit_end_idx: u32,
         last_lit_end_byte_offset: ByteOffset,
         str_text_end_byte_offset: Option<ByteOffset>,
+        has_escapes: bool,
     ) -> Payload {
-        if lit_start_idx == cur_lit_end_idx {
+        if lit_start_idx == cur_lit_end_idx && !has_escapes {
             Payload::None
         } else {
             // Make sure we've added the trailing literal section
@@ -3284,6 +3297,7 @@ impl Lexer<'_> {
                             lit_end_idx,
                             last_lit_end_byte_offset,
                             None, // will use the current byte offset
+                            false,
                         );
 
                         self.emit_token(TokenChannel::DEFAULT, TokenType::StringExprText, payload);
@@ -3304,6 +3318,7 @@ impl Lexer<'_> {
                             lit_end_idx,
                             last_lit_end_byte_offset,
                             None, // will use the current byte offset
+                            false,
                         );
 
                         self.emit_token(TokenChannel::DEFAULT, TokenType::StringExprText, payload);
@@ -3355,6 +3370,7 @@ impl Lexer<'_> {
                         lit_end_idx,
                         last_lit_end_byte_offset,
                         None, // will use the current byte offset
+                        false,
                     );
 
                     if last_tok_is_start {
@@ -3380,6 +3396,7 @@ impl Lexer<'_> {
             lit_end_idx,
             last_lit_end_byte_offset,
             None, // will use the current byte offset
+            false,
         );
 
         self.handle_unterminated_str_expr(payload);
